@@ -319,6 +319,9 @@ def main(mod):
     slow = sorted(results, key=lambda r: -r.get('wall_s', 0))[:5]
     print("slowest tasks: " + ", ".join("%s=%.1fs/%dp/%dq" % (r['id'], r.get('wall_s', 0), r['paths'], r['queries'])
                                          for r in slow))
+    if os.environ.get('VERIF_TIMES'):
+        for r in sorted(results, key=lambda r: -r.get('wall_s', 0))[:60]:
+            print("TIME %.1fs %dp %dq %s" % (r.get('wall_s', 0), r['paths'], r['queries'], r['id']))
     if seen:
         sys.exit(1)
     if harness_err:
